@@ -1,7 +1,7 @@
 (** * C18 — persisted-query lookups only ever execute the document with that SHA-256.
     This file contains only statements closed by [exact] and their [Print Assumptions]. *)
 From Coq Require Import List NArith.
-From ApiFu Require Import Base.Sexp Api.PersistedQueryModel Api.PersistedQuerySpec Api.PersistedQueryProofs.
+From ApiFu Require Import Base.Sexp Api.PersistedQueryModel Api.PersistedQuerySpec Api.PersistedQueryProofs Api.Sha256.
 Import ListNotations.
 
 Section C18.
@@ -43,6 +43,35 @@ Section C18.
   Proof. exact (disabled_equiv sha). Qed.
 End C18.
 
+(** The same statements for the digest function the property names: [Api/Sha256.v] is FIPS 180-4
+    SHA-256 in Gallina (the correspondence check recomputes with it every digest the harness
+    obtained from Go's crypto/sha256, so the section variable above is no longer an assumption
+    about the harness).  [sha_len] is discharged by [sha256_len]. *)
+Theorem C18_storage_inv_sha256 : forall rs,
+  Forall (fun p => fst p = sha256 (snd p) /\ snd p <> []) (fst (run sha256 false [] rs)).
+Proof. exact (storage_inv sha256). Qed.
+
+Theorem C18_refines_spec_sha256 : forall rs,
+  map fst (snd (run sha256 false [] rs)) = spec_run sha256 [] rs.
+Proof. exact (refines_spec sha256 sha256_len). Qed.
+
+Theorem C18_lookup_exact_sha256 : forall rs e t,
+  ext_version_one e = true ->
+  snd (fst (step sha256 false (fst (run sha256 false [] rs)) {| rq_query := []; rq_ext := Some e |})) = Exec t ->
+  map lower (ext_hash e) = hex_encode (sha256 t) /\ (t = [] \/ In t (registered rs)).
+Proof. exact (lookup_exact sha256 sha256_len). Qed.
+
+Theorem C18_lookup_complete_sha256 : forall rs e t,
+  ext_version_one e = true -> In t (registered rs) -> denotes (ext_hash e) = Some (sha256 t) ->
+  exists t', snd (fst (step sha256 false (fst (run sha256 false [] rs)) {| rq_query := []; rq_ext := Some e |})) = Exec t'
+             /\ sha256 t' = sha256 t.
+Proof. exact (lookup_complete sha256 sha256_len). Qed.
+
+(** every digest is 32 bytes, each below 256 — for every message, of any length *)
+Theorem C18_sha256_digest_shape : forall m,
+  length (sha256 m) = 32%nat /\ Forall (fun b => (b < 256)%N) (sha256 m).
+Proof. exact (fun m => conj (sha256_len m) (sha256_byte_range m)). Qed.
+
 (** the repaired defect, kept as a witness: with the hex error ignored the property is false *)
 Theorem C18_refuted_when_hex_error_ignored :
   exists (rs : list request) (e : ext) (t : bytes),
@@ -58,3 +87,8 @@ Print Assumptions C18_lookup_complete.
 Print Assumptions C18_text_wins.
 Print Assumptions C18_disabled_equiv.
 Print Assumptions C18_refuted_when_hex_error_ignored.
+Print Assumptions C18_storage_inv_sha256.
+Print Assumptions C18_refines_spec_sha256.
+Print Assumptions C18_lookup_exact_sha256.
+Print Assumptions C18_lookup_complete_sha256.
+Print Assumptions C18_sha256_digest_shape.
